@@ -135,7 +135,11 @@ func YieldCount(p string) int64 { return atomic.LoadInt64(gates.count(p)) }
 // openGates lets every blocked or future yield pass (used around Close).
 func openGates() {
 	gates.mu.Lock()
-	close(gates.closeCh)
+	select {
+	case <-gates.closeCh:
+	default:
+		close(gates.closeCh)
+	}
 	gates.mu.Unlock()
 }
 func resetGates() {
@@ -262,11 +266,14 @@ func (w *World) Close() (panicked string) {
 			defer func() {
 				if e := recover(); e != nil {
 					panicked = fmt.Sprint(e)
-					// CheckInvariants panicked before tg.Stop: stop the threads anyway
 				}
 			}()
 			w.S.Close()
 		}()
+		if panicked != "" {
+			// CheckInvariants panicked before anything was stopped: stop the threads anyway
+			w.S.VerifStop()
+		}
 		w.S = nil
 	}
 	os.RemoveAll(w.Dir)
@@ -719,8 +726,9 @@ func (w *World) ImpactRound(val func(id uint32) (float64, uint32), between func(
 	return
 }
 
-// Restart closes the server and starts it again on the same directory.
-func (w *World) Restart(note string) (ok bool, startErr error, panicked string) {
+// Restart closes the server (after letting the rotation thread quiesce at the current clock), moves the clock
+// to newNow and starts the server again on the same directory (start-up catch-up happens at newNow).
+func (w *World) Restart(newNow uint32, note string) (ok bool, startErr error, panicked string) {
 	if !w.Quiesce() {
 		return false, nil, ""
 	}
@@ -733,11 +741,15 @@ func (w *World) Restart(note string) (ok bool, startErr error, panicked string) 
 		}()
 		w.S.Close()
 	}()
+	if panicked != "" {
+		w.S.VerifStop()
+	}
 	resetGates()
 	if panicked != "" {
 		w.S = nil
 		return false, nil, panicked
 	}
+	w.SetNow(newNow)
 	var s *server.GCAServer
 	var err error
 	func() {
